@@ -84,6 +84,12 @@ impl Rng {
         v
     }
 
+    /// random bytes of a random length in lo..=hi
+    pub fn bytes_range(&mut self, lo: u64, hi: u64) -> Vec<u8> {
+        let n = self.range(lo, hi) as usize;
+        self.bytes(n)
+    }
+
     pub fn shuffle<T>(&mut self, xs: &mut [T]) {
         for i in (1..xs.len()).rev() {
             let j = self.below(i as u64 + 1) as usize;
